@@ -260,11 +260,10 @@ def encode(c):
         args = ['empty'] if c['site'] == 'collapse' else []
         prog.append(['check', c['view'], args])
         if c['site'] == 'collapse':
-            # collapse checks 'empty' on the receiver, then the constructor checks the collapsed table;
-            # for an empty receiver the code assembles a 0 x 0 matrix for one collapsed id (known finding F25)
+            # collapse checks 'empty' on the receiver, then the constructor checks the collapsed table
+            # (one collapsed sample 'g' over the receiver's observations; F25 repaired: coherent also when empty)
             v = c['view']
-            v2 = dict(v, cols=1, sids=[99], smd=1, empty=False) if not v['empty'] else \
-                dict(v, rows=0, cols=0, sids=[99], smd=1, empty=True)
+            v2 = dict(v, cols=1, sids=[99], smd=1, empty=v['rows'] == 0)
             prog.append(['check', v2, []])
         return [8, [enc_instr(i) for i in prog]]
     return [8, [enc_instr(i) for i in c['prog']]]
@@ -581,4 +580,4 @@ def _f25(c, io, mo, fails):
             and c.get('trigger') and io and io[0][0] == 'check' and io[0][1][0] == 'ok' and io[0][1][1][0] == 'raise')
 
 
-SIGNATURES = {'F25': _f25}
+SIGNATURES = {}
